@@ -59,7 +59,7 @@ def validate(ck, jobs, events):
     rounds = 0
     while start < len(ranges):
         rounds += 1
-        if rounds > 12:
+        if rounds > 40:
             raise vkit.Infra("too many rejected jobs")
         evs = events[ranges[start][0]:]
         r, d = mu.strict(ck, evs, "TraceMetaMigration.cfg", "r%d" % rounds)
@@ -99,10 +99,12 @@ def run(ck):
               "<=3 interrupts, and 3 containers x <=2 associations, budget 2; liveness (termination under WF): <=2 containers x <=2 "
               "associations, budgets 1..2, <=2 interrupts" if thorough else
               "safety: all worlds with <=2 containers x <=2 associations x <=1 homomorphic entry, budgets 1..2, formats 9 and 10, <=2 interrupts; "
-              "liveness (termination under WF): same worlds with budget 1, <=1 interrupt")
-    ra = ck.tlc("MetaMigrationMC", "MetaMigration_asis.cfg", timeout=900, count=False)
-    if not (ra.kind == "invariant" and ra.name == "Upgraded"):
-        raise vkit.Infra("the as-is model (BugCursorLeak) is expected to violate Upgraded, got %s %s" % (ra.kind, ra.name))
+              "liveness (termination under WF): <=2 containers x <=2 associations, budget 1, <=1 interrupt")
+    if thorough:
+        # (quick: the exhaustive as-is schedule generation below plays the same role)
+        ra = ck.tlc("MetaMigrationMC", "MetaMigration_asis.cfg", timeout=900, count=False)
+        if not (ra.kind == "invariant" and ra.name == "Upgraded"):
+            raise vkit.Infra("the as-is model (BugCursorLeak) is expected to violate Upgraded, got %s %s" % (ra.kind, ra.name))
 
     # ---- 2. schedules (M->C)
     # scaled worlds: counts in units of 1000/budget real keys, so that real batches = model batches
